@@ -62,6 +62,11 @@ class Prop(PropBase):
                         if not clean and rng.random() < 0.6:
                             kind, bad = scen.malformed(rng, l, m, good_d)
                             s.pkt(0, bad, tick=tick())
+                if l.mech and r % 3 == 1:
+                    # unthrottled sites: the same per-packet error twice within one wall-clock second must be reported twice
+                    for _ in range(2):
+                        s.pkt(0, ms.msop(bad_blk=rng.randrange(l.nblk), model=rng.choice([2, 3]) if t == 'RSP80' else None), tick=0)
+                        s.pkt(0, ms.msop(model=rng.choice([2, 3]) if t == 'RSP80' else None), tick=0)
                 if clean:
                     self.clean.add(name)
                 # a getTemperature query after every packet delimits the packets in the output
